@@ -131,6 +131,9 @@ func vtlRun(idx int, cs vtlCase) map[string]any {
 	if strings.HasPrefix(cs.Site, "ingest.") {
 		return vtlRunIngest(idx, cs)
 	}
+	if strings.HasPrefix(cs.Site, "connect.") {
+		return vtcRun(idx, cs) // taint_connect_verif_test.go: the registration path of connecting transports
+	}
 	res := map[string]any{"kind": "result", "idx": idx, "case": cs}
 	client := vrlNewConn("client", &net.TCPAddr{IP: net.ParseIP("192.0.2.10"), Port: 443}, vtlAddrs[cs.Fam])
 	client.blockRead = true
@@ -225,7 +228,7 @@ func TestVerifTaintRelay(t *testing.T) {
 		if err := json.Unmarshal(line, &c); err != nil {
 			t.Fatalf("bad case: %v", err)
 		}
-		if !c.LogIP && (strings.HasPrefix(c.Site, "relay.") || strings.HasPrefix(c.Site, "ingest.") || c.Site == "dial") {
+		if !c.LogIP && (strings.HasPrefix(c.Site, "relay.") || strings.HasPrefix(c.Site, "ingest.") || strings.HasPrefix(c.Site, "connect.") || c.Site == "dial") {
 			cases = append(cases, c)
 		}
 	})
